@@ -189,7 +189,9 @@ func c40(c *an.Check) {
 		}},
 	}
 	// NILDEREF over the same functions: a (pointer|interface, error) result is dereferenced only behind err == nil
-	nND := c.NilDerefGuard("NILDEREF", "network decoder: (value, error) results dereferenced only when err==nil", fns, vtSafeRecv)
+	an.NilProducer = nilProducers
+	nND := c.NilDerefGuard("NILDEREF", "network decoder: (value, error) results and possibly-absent message fields dereferenced only when known present", fns, nilSafeRecv(p))
+	an.NilProducer = nil
 	c.Note("NILDEREF examined %d (value, error) call sites in %d decoder functions", nND, len(fns))
 	if c.Tier == "thorough" {
 		// whole-repository sweep of the two panic/aliasing rules: functions outside the decoder surface are cross-reference
@@ -254,7 +256,7 @@ func init() {
 // vtSafeRecv: generated protobuf getters (GetX) and Size/Clone helpers check their receiver for nil.
 func vtSafeRecv(f *types.Func) bool {
 	n := f.Name()
-	return strings.HasPrefix(n, "Get") || n == "SizeVT" || n == "CloneVT" || n == "EqualVT"
+	return strings.HasPrefix(n, "Get") || n == "SizeVT" || n == "CloneVT" || n == "EqualVT" || n == "MarshalVT" || n == "MarshalToSizedBufferVT" || n == "String" || n == "Reset" || n == "CheckValid" || n == "IsValid" || n == "AsTime"
 }
 
 // sizeVTSanity: in the generated SizeVT methods the argument of a varint-size computation is a field's own value or
@@ -646,4 +648,71 @@ func pbTagAgreement(c *an.Check, pkgs func(rel string) bool) {
 		}
 		return "no tagged decoder stores found (anchor drift)"
 	}())
+}
+
+
+// nilProducers: pem.Decode (nil block when no PEM data is found) and generated getters of message-typed protobuf fields
+// (nil when the field is absent on the wire).
+func nilProducers(call *ssa.Call) bool {
+	fo := an.CallObj(call.Common())
+	if fo == nil {
+		return false
+	}
+	if fo.Pkg() != nil && fo.Pkg().Path() == "encoding/pem" && fo.Name() == "Decode" {
+		return true
+	}
+	if strings.HasPrefix(fo.Name(), "Get") && fo.Pkg() != nil && strings.HasPrefix(fo.Pkg().Path(), an.Mod) {
+		sig := fo.Type().(*types.Signature)
+		if sig.Recv() != nil && sig.Params().Len() == 0 && sig.Results().Len() == 1 {
+			if pt, ok := sig.Results().At(0).Type().Underlying().(*types.Pointer); ok {
+				if _, isStruct := pt.Elem().Underlying().(*types.Struct); isStruct {
+					return true
+				}
+			}
+		}
+	}
+	return false
+}
+
+
+// nilSafeRecv: a method tolerates a nil receiver when its body touches the receiver only by calling other nil-safe
+// methods on it or comparing it (generated getters check for nil; so do hand-written validators built from getters).
+func nilSafeRecv(p *an.Prog) func(*types.Func) bool {
+	memo := map[*types.Func]bool{}
+	var safe func(fo *types.Func, depth int) bool
+	safe = func(fo *types.Func, depth int) bool {
+		if vtSafeRecv(fo) {
+			return true
+		}
+		if v, ok := memo[fo]; ok {
+			return v
+		}
+		memo[fo] = true // optimistic for recursion
+		fn := p.SSA.FuncValue(fo)
+		ok := fn != nil && fn.Blocks != nil && len(fn.Params) > 0 && depth < 6
+		if ok {
+			recv := fn.Params[0]
+			if recv.Referrers() != nil {
+				for _, r := range *recv.Referrers() {
+					switch x := r.(type) {
+					case *ssa.Call:
+						cc := x.Common()
+						callee := an.CallObj(cc)
+						isRecvUse := !cc.IsInvoke() && len(cc.Args) > 0 && cc.Args[0] == ssa.Value(recv) && callee != nil && callee.Type().(*types.Signature).Recv() != nil
+						if !isRecvUse || !safe(callee, depth+1) {
+							ok = false
+						}
+					case *ssa.BinOp, *ssa.DebugRef:
+					case *ssa.MakeInterface, *ssa.ChangeInterface:
+						ok = false
+					default:
+						ok = false
+					}
+				}
+			}
+		}
+		memo[fo] = ok
+		return ok
+	}
+	return func(fo *types.Func) bool { return safe(fo, 0) }
 }
